@@ -257,8 +257,9 @@ Definition stat_cluster (biased : bool) (h : heap) (c : loc) : heap * loc :=
   let '(h1, c1) := cluster_shallow_copy h c in
   match get h1 c1 with
   | Some (OCluster ml _ _ ti cc ic ld) =>
-    (* np.cov of a single row does not depend on the row (NaN resp. zeros) *)
-    let '(h2, ec) := alloc h1 (OArr (1 :: (if biased then 1 else 0) :: (if Nat.eqb (length mem) 1 then [] else mem))) in
+    (* a single row always gets the biased estimate (all zeros), whatever the row and the flag *)
+    let '(h2, ec) := alloc h1 (OArr (if Nat.eqb (length mem) 1 then [1; 1]
+                                     else 1 :: (if biased then 1 else 0) :: mem)) in
     let '(h3, mu) := alloc h2 (OArr (2 :: mem)) in
     (upd h3 c1 (OCluster ml (Some ec) (Some mu) ti cc ic ld), c1)
   | _ => (h1, c1)
